@@ -320,3 +320,11 @@ Proof.
     lra.
   - intros ->. simpl. unfold Rdiv. rewrite !Rmult_0_l, Rabs_R0. lra.
 Qed.
+
+(** the overflow-safe form used by PV.TruncSpec.susc_tau_safe is the same number as the term of EDSpec.susc_tau:
+    w_n e^{tau (E_n - E_m)} with w_n = e^{-beta (E_n - E_0)}/Z *)
+Lemma tau_exponent_combined (beta tau En Em e0 Z : R) :
+  exp (- (beta * (En - e0))) / Z * exp (tau * (En - Em)) = exp (- ((beta - tau) * (En - e0) + tau * (Em - e0))) / Z.
+Proof.
+  unfold Rdiv. rewrite Rmult_assoc, (Rmult_comm (/ Z)), <- Rmult_assoc, <- exp_plus. f_equal. f_equal. ring.
+Qed.
